@@ -115,7 +115,12 @@ def quiet(fn, *a, **kw):
 def weights(rng, m):
     """importance-sampling ratios: mild (0.5..2), spread over several decades, strongly peaked (a few snapshots carry the weight), or
     unnormalised (all of the order 1e-6..1e-3) - ratios are only defined up to a factor and may differ by orders of magnitude"""
-    k = int(rng.integers(0, 5))
+    k = int(rng.integers(0, 6))
+    if k == 5:
+        # multiplicities (how often a snapshot was visited): integer arrays as counting code produces them (np.bincount / np.unique give
+        # int64, hand-written counters often unsigned); 32- and 64-bit types only (the square root of an 8- or 16-bit NumPy integer is a
+        # half- / single-precision number: weights of that kind are not what "the same singular-value cut" can be asked of)
+        return rng.integers(1, 6, size=m).astype([np.int64, np.uint32, np.uint64][int(rng.integers(0, 3))])
     if k <= 1:
         return rng.uniform(0.5, 2.0, size=m)
     if k == 2:
